@@ -106,11 +106,16 @@ def run_case(kind, grid, li, quad, extra, pair, drv, probe):
         t["kind"] = k
         return "fail", dict(case=case, tags=t, what=f"{kind} stock, {lt[0]}{lt[1]} shapes {shapes}, grid {list(grid)} extra {extra} quad {quad} driver {drv}: {what}")
 
+    ill = False
     if kind != "simple":
         sf_m, _ = dsm.sf_table(grid, lt[0], dsm_impl.prm_fn(lt[1], shapes, extra), quad[0], quad[1], labs)
         if kind.startswith("stock"):
-            if any(sf_m[(c, c, lab)] is None or sf_m[(c, c, lab)] < 0.05 for c in range(n) for lab in labs):
+            if any(sf_m[(c, c, lab)] is None or sf_m[(c, c, lab)] < 1e-12 for c in range(n) for lab in labs):
                 return "skipped-ill-conditioned", None
+            # a small but non-zero surviving share makes the inferred inflow large; the conservation identity still
+            # holds relative to the size of the flows, only the ABSOLUTE 1-unit threshold of check_stock_balance is
+            # then a matter of rounding and is not asserted
+            ill = any(sf_m[(c, c, lab)] < 0.05 for c in range(n) for lab in labs)
 
     def compute():
         if kind == "simple":
@@ -140,6 +145,8 @@ def run_case(kind, grid, li, quad, extra, pair, drv, probe):
             cum += net
             if not abs(cum - res["stock"][(t, lab)]) <= TOL * scale * (t + 1):
                 return fail("cumulative", f"cumulative net inflow {cum!r} != stock {res['stock'][(t, lab)]!r} at t={t}, label {lab}")
+    if ill:
+        return "conserves (small surviving share, relative to flow size)", None
     s = res["obj"]
     st, info = attempt(lambda: s.check_stock_balance())
     if st == "raised":
